@@ -376,4 +376,105 @@ theorem prefixed_resolves_in_family (T : Tables) (p' t : Str) (mono : Bool) (h35
    fun h => mass_resid_prefix T p' t mono h h35, fun h => mass_psi_prefix T p' t mono h h35,
    fun h hP => mass_unimod_prefix T p' t mono h h35 hP⟩
 
+/-! ## 6b. the bare number, and agreement of the bare and the prefixed form -/
+
+/-- every text Python's `float()` accepts is a mass shift of that value (`int()` and `float()` agree on the value) -/
+theorem number_is_shift (T : Tables) (s : Str) (mono : Bool) (h35 : 35 ∉ s) (hb : parseFloat s ≠ .bad) :
+    parseModMass T s mono =
+      (match parseFloat s with
+       | .val r => .ok (some (some r))
+       | .special => .ok (some none)
+       | .bad => .error .invalidDeltaMass) := by
+  rw [parseModMass_noTag T mono h35, massBody_number]
+  cases hf : parseFloat s with
+  | bad => exact absurd hf hb
+  | val r => rfl
+  | special => rfl
+
+/-- `int(s)` succeeding implies `float(s)` gives the same value (so `convert_type` and `_get_mass` read a signed
+number alike) -/
+theorem int_float_agree (s : Str) (i : Int) (h : parseInt s = some i) : parseFloat s = .val (i : Rat) :=
+  parseFloat_of_parseInt h
+
+/-- consistency: `U:+x`, `M:+x`, `X:+x`, `R:+x`, `G:+x` have the mass of the bare `+x`, for every `+x` that is a number -/
+theorem prefixed_shift_equals_bare (T : Tables) (p' : Str) (c : Nat) (ds : Str) (mono : Bool)
+    (hc : c = 43 ∨ c = 45) (h35 : 35 ∉ c :: ds) (hb : parseFloat (c :: ds) ≠ .bad) :
+    (lower p' ∈ pGno → parseModMass T (p' ++ c :: ds) mono = parseModMass T (c :: ds) mono) ∧
+    (lower p' ∈ pXlmod → parseModMass T (p' ++ c :: ds) mono = parseModMass T (c :: ds) mono) ∧
+    (lower p' ∈ pResid → parseModMass T (p' ++ c :: ds) mono = parseModMass T (c :: ds) mono) ∧
+    (lower p' ∈ pPsi → parseModMass T (p' ++ c :: ds) mono = parseModMass T (c :: ds) mono) ∧
+    (lower p' ∈ pUnimod → isDbStr pPsi T.psimod (p' ++ c :: ds) = false →
+      parseModMass T (p' ++ c :: ds) mono = parseModMass T (c :: ds) mono) := by
+  rw [number_is_shift T (c :: ds) mono h35 hb]
+  exact ⟨fun h => prefixed_number_is_shift_gno T p' c ds mono h hc h35,
+    fun h => prefixed_number_is_shift_xlmod T p' c ds mono h hc h35,
+    fun h => prefixed_number_is_shift_resid T p' c ds mono h hc h35,
+    fun h => prefixed_number_is_shift_psi T p' c ds mono h hc h35,
+    fun h hP => prefixed_number_is_shift_unimod T p' c ds mono h hc h35 hP⟩
+
+example : parseFloat (str% "+1_0.5e1") ≠ .bad := by decide +kernel
+example : parseModMass T0 (str% "R:+1_0.5e1") true = parseModMass T0 (str% "+1_0.5e1") true := by decide +kernel
+
+/-- a prefixed signed number has no composition: `DeltaMassCompositionError` (`InvalidDeltaMassError` if unreadable) -/
+theorem prefixed_number_no_comp (T : Tables) (p' : Str) (c : Nat) (ds : Str)
+    (hc : c = 43 ∨ c = 45) (h35 : 35 ∉ c :: ds)
+    (hp : lower p' ∈ pGno ∨ lower p' ∈ pXlmod ∨ lower p' ∈ pResid ∨ lower p' ∈ pPsi ∨
+      (lower p' ∈ pUnimod ∧ isDbStr pPsi T.psimod (p' ++ c :: ds) = false)) :
+    parseModComp T (p' ++ c :: ds) =
+      (match parseFloat (c :: ds) with
+       | .bad => .error .invalidDeltaMass
+       | _ => .error .deltaMassComp) := by
+  obtain ⟨h1, h2, h3, h4, h5⟩ := comp_family_prefix T p' (c :: ds) h35
+  have hd := fun db => dbComp_signed db c ds hc
+  rcases hp with h | h | h | h | ⟨h, hP⟩
+  · rw [h1 h, hd]; cases parseFloat (c :: ds) <;> rfl
+  · rw [h2 h, hd]; cases parseFloat (c :: ds) <;> rfl
+  · rw [h3 h, hd]; cases parseFloat (c :: ds) <;> rfl
+  · rw [h4 h, hd]; cases parseFloat (c :: ds) <;> rfl
+  · rw [h5 h hP, hd]; cases parseFloat (c :: ds) <;> rfl
+
+example : modComp T0 (str% "U:+1") = .error .deltaMassComp := by decide +kernel
+
+/-! ## 5b. compositions of Formula / Glycan strings; mass and composition agree -/
+
+theorem glycan_comp (T : Tables) (s : Str) (hp : startsWith (lower s) (str% "glycan:") = true) (h35 : 35 ∉ s) :
+    parseModComp T s = (glycanCompProforma T s).map some :=
+  comp_glycan T s hp h35
+
+/-- `Formula:f` has the composition of `f` **up to its second colon** (`split(':')[1]`), whereas the mass
+(`formula_mass`) reads `f` with all further colons removed (`''.join(split(':')[1:])`).
+ODDITY of the code: `mod_mass('Formula:C2:H3')` is the mass of C2H3, `mod_comp('Formula:C2:H3')` is `{'C': 2}`. -/
+theorem formula_comp (T : Tables) (p' t : Str) (hp : lower p' = str% "formula:") (h35 : 35 ∉ t)
+    (hP : isDbStr pPsi T.psimod (p' ++ t) = false) (hU : isDbStr pUnimod T.unimod (p' ++ t) = false) :
+    parseModComp T (p' ++ t) = (parseChem (spanP (· != 58) t).1 []).map some :=
+  comp_formula_prefix T p' t hp h35 hP hU
+
+/-- for a formula without a further colon the two agree: the mass is the chemical mass of the composition -/
+theorem formula_mass_of_comp (T : Tables) (p' t : Str) (mono : Bool) (c : Comp)
+    (hp : lower p' = str% "formula:") (h35 : 35 ∉ t) (h58 : 58 ∉ t)
+    (hP : isDbStr pPsi T.psimod (p' ++ t) = false) (hU : isDbStr pUnimod T.unimod (p' ++ t) = false)
+    (hc : parseModComp T (p' ++ t) = .ok (some c)) :
+    parseModMass T (p' ++ t) mono = (chemMassComp T.mass mono c).map (fun m => some (some m)) := by
+  obtain ⟨e1, e2⟩ := spanP_noColon h58
+  rw [formula_comp T p' t hp h35 hP hU, e1] at hc
+  rw [formula_mass T p' t mono hp h35 hP hU, e2, chemMassStr]
+  cases hpc : parseChem t [] with
+  | error e => rw [hpc] at hc; cases hc
+  | ok c' =>
+    rw [hpc] at hc
+    simp only [Except.map, Except.ok.injEq, Option.some.injEq] at hc
+    subst hc
+    cases hm : chemMassComp T.mass mono c' <;> simp [hm, Except.map]
+
+/-- a table with the element C -/
+def T2 : Tables := { T0 with mass := { T0.mass with elems := [⟨str% "C", ⟨12, 0⟩, some ⟨12011, 3⟩, some 0⟩,
+  ⟨str% "H", ⟨1007825, 6⟩, some ⟨1008, 3⟩, some 1⟩] } }
+
+example : parseModMass T2 (str% "Formula:C2H3") true = .ok (some (some (27023475 / 1000000))) := by decide +kernel
+example : parseModComp T2 (str% "Formula:C2H3") = .ok (some [(str% "C", Num.ofInt 2), (str% "H", Num.ofInt 3)]) := by
+  decide +kernel
+-- the oddity on the model: second colon
+example : parseModMass T2 (str% "Formula:C2:H3") true = .ok (some (some (27023475 / 1000000))) := by decide +kernel
+example : parseModComp T2 (str% "Formula:C2:H3") = .ok (some [(str% "C", Num.ofInt 2)]) := by decide +kernel
+
 end C10Generic
